@@ -616,24 +616,50 @@ def pratt_tables(ctx):
                     if st['k'] == 'assign' and st['rv']['k'] == 'discr' and st['rv']['enum'] == TOKEN \
                             and place_fields(st['rv']['place']) == ['current_token']:
                         sw = (b, t)
-        if sw is None:
-            raise CheckerError('parse_expr: the continuation loop has no match on the current token')
-        disp = {names[val]: first_parser_call(pe, tb) for val, tb in sw[1]['targets']}
-        other = first_parser_call(pe, sw[1]['otherwise'])
-        first_sw = None
-        for b in range(len(pe.blocks)):
-            if b in body:
-                continue
-            t = pe.term(b)
-            if t['k'] == 'switch' and len(t['targets']) >= 5:
-                for st in pe.blocks[b]['stmts']:
-                    if st['k'] == 'assign' and st['rv']['k'] == 'discr' and st['rv']['enum'] == TOKEN:
-                        first_sw = t
-                if first_sw:
-                    break
-        if first_sw is None:
-            raise CheckerError('parse_expr: no initial match on the current token')
-        first = {names[val]: first_parser_call(pe, tb) for val, tb in first_sw['targets']}
+        # which parser routine one turn of the continuation loop hands each token to: the loop body is constant-propagated
+        # with `self.current_token` fixed to every Token variant in turn (a match, an if-chain or a predicate helper all fold)
+        par = F.adt('parser::Parser')
+        fidx = next(i for i, f in enumerate(par['variants'][0]['fields']) if f['name'] == 'current_token')
+        disp = {}
+        for v in F.adt(TOKEN)['variants']:
+            val = ('enum', TOKEN, v['name']) if not v['fields'] else ('agg', TOKEN, v['name'], tuple(('unknown', 'payload') for _ in v['fields']))
+            env = {'_1.*.f%d' % fidx: val}
+            firsts = set()
+
+            def decide(name, argvals, t_):
+                if name in F.fns and not name.startswith(P) and not name.startswith('parser::parse'):
+                    ad = (t_ or {}).get('argvals_deref') or argvals
+                    return eval_pure(F, name, list(ad))
+                return None
+            for p in AbsInt(F, pe, env, stop_blocks={header}, decide_call=decide, max_paths=400, loop_bound=2).run(header):
+                calls = [c[1][len(P):] for c in p.calls if c[1].startswith(P) and c[1][len(P):] not in ('advance',)]
+                firsts.add(calls[0] if calls else None)
+            called = {f for f in firsts if f}
+            if len(called) == 1:
+                disp[v['name']] = next(iter(called))
+            elif len(called) > 1:
+                disp[v['name']] = '<ambiguous %s>' % sorted(called)
+        other = None
+        # the same for the first token of an expression (prefix / primary dispatch): from the entry up to the loop
+        first = {}
+        for v in F.adt(TOKEN)['variants']:
+            val = ('enum', TOKEN, v['name']) if not v['fields'] else ('agg', TOKEN, v['name'], tuple(('unknown', 'payload') for _ in v['fields']))
+            env = {'_1.*.f%d' % fidx: val}
+            firsts = set()
+
+            def decide0(name, argvals, t_):
+                if name in F.fns and not name.startswith(P) and not name.startswith('parser::parse'):
+                    ad = (t_ or {}).get('argvals_deref') or argvals
+                    return eval_pure(F, name, list(ad))
+                return None
+            for p in AbsInt(F, pe, env, stop_blocks={header}, decide_call=decide0, max_paths=400, loop_bound=2).run(0):
+                calls = [c[1][len(P):] for c in p.calls if c[1].startswith(P) and c[1][len(P):] not in ('advance',)]
+                firsts.add(calls[0] if calls else None)
+            called = {f for f in firsts if f}
+            if len(called) == 1:
+                first[v['name']] = next(iter(called))
+            elif len(called) > 1:
+                first[v['name']] = '<ambiguous %s>' % sorted(called)
         of = operator_from_token(ctx)['map']
         infix_tokens = {t for t, c in disp.items() if c == 'parse_infix_expr'}
         prefix_tokens = {t for t, c in first.items() if c == 'parse_prefix_expr'}
